@@ -203,13 +203,14 @@ def lexLiteral (T : LexTables K) : List Rune → LStep K
 def runesBytes (rs : List Rune) : Bytes := rs.flatMap (·.bytes)
 
 def lexPredicateOrLiteral (T : LexTables K) (rest : List Rune) : LStep K :=
-  let bs := runesBytes rest
+  -- the delimiters are looked for after the opening quote (text[1:])
+  let bs := (runesBytes rest).drop 1
   let pIdx := indexOf anchorPat bs 0
   let lIdx := indexOf litTypePat bs 0
   match pIdx, lIdx with
   | none, none => .err []
-  | some p, none => if p > 0 then lexPredicate T rest else lexLiteral T rest
-  | some p, some l => if p > 0 && p < l then lexPredicate T rest else lexLiteral T rest
+  | some _, none => lexPredicate T rest
+  | some p, some l => if p < l then lexPredicate T rest else lexLiteral T rest
   | none, some _ => lexLiteral T rest
 
 /-- lexPredicateGlobalTime after its first rune. -/
